@@ -568,18 +568,23 @@ where
                     res.push(acc);
                 }
             }
-            // nalgebra's iteration is truncated on the real part: derivative parts are only accurate to
-            // ~1e-7 relative; the tolerance is the calibrated one of DESIGN 4-C12 with >= 100x head-room
+            // real part: nalgebra's own accuracy (iteration truncated at ~1e-11 relative)
             let amp = 1.0 + nrm / gap;
-            let factor = |o: u8| match o {
-                0 => 1.0e7 * amp,
-                1 => 1.0e9 * amp * amp,
-                _ => 1.0e12 * amp * amp * amp,
-            };
-            match check_residual("na-symmetric-eigen", &res, &lay, &alg, &factor, pmax) {
+            let strict = |o: u8| 64.0 * n as f64 * amp.powi(1 + 2 * o as i32);
+            let real_only = |o: u8| if o == 0 { 1.0e7 * amp } else { f64::INFINITY };
+            match check_residual("na-symmetric-eigen", &res, &lay, &alg, &real_only, pmax) {
                 Ok(rs) => {
-                    for o in 0..=lay.max_order().min(4) {
-                        st.ratio(&format!("NaEigen/order{o}: residual/(u amp^(1+o) m)"), rs.by_order[o] / amp.powi(1 + o as i32));
+                    st.ratio("NaEigen/order0: residual/(u amp m)", rs.by_order[0] / amp);
+                    // derivative parts: conditioning-scaled tolerance of the property; beyond it the
+                    // case is an occurrence of the KNOWN finding (nalgebra stops iterating when the
+                    // REAL parts have converged, because num-dual compares by the real part only)
+                    let beyond = (1..=lay.max_order().min(4)).any(|o| rs.by_order[o] > strict(o as u8));
+                    for o in 1..=lay.max_order().min(4) {
+                        st.ratio(&format!("NaEigen/order{o}: residual/(n u amp^(1+2o) m)"), rs.by_order[o] / (n as f64 * amp.powi(1 + 2 * o as i32)));
+                    }
+                    if beyond {
+                        st.known_hit("C12/na-symmetric-eigen/derivative-parts", || serde_json::to_value(case).unwrap_or_default());
+                        return Ok((amp, false));
                     }
                     Ok((amp, n >= 3))
                 }
@@ -681,7 +686,7 @@ impl Property for C12 {
         }
     }
     fn rule() -> String {
-        "generated: size n in 1..6; general matrices P (Q1 D Q2) with Givens-product orthogonal factors, singular values in [0.5,2] (condition number <= 4 known by construction; 20%: up to 1e4) and a random row permutation (pivoting paths, both parities); symmetric matrices Q L Q^T with eigenvalue gaps >= 0.25; every entry carries arbitrary derivative parts (symmetric for the eigen routines); right-hand sides; scalar types Dual64, Dual2_64, DualSVec64<2>, HyperDual64, Dual3_64 for the crate's own LU / Jacobi / norm and Dual64, Dual2_64, DualSVec64<2>, Dual2SVec64<2> for nalgebra's generic LU, inverse, determinant, symmetric_eigen; singular stratum: exact dyadic matrices with a zero column / repeated row / dependent row and non-zero derivative parts. Oracle = validity predicates evaluated in the reference algebra on the library's output: A x = b, A A^-1 = I, det = Leibniz expansion (all parts, which contains Jacobi's formula), A V = V diag(lambda), V^T V = I, lambda ascending (crate Jacobi), which contains Hellmann-Feynman; tolerance 64 n u (1+kappa)^(1+order) * (summed magnitude of the identity's terms) for the direct methods, calibrated gap-scaled tolerances for the iterative eigen routines (crate Jacobi 64 n u amp^(1+2 order) with amp = 1 + norm/gap, nalgebra symmetric_eigen 1e7/1e9/1e12 u amp^(1+order) because its iteration is truncated on the real part); the singular stratum must be reported (Err / None / false) and never yield non-finite output. Non-trivial: n >= 3, a row swap happened, non-zero derivative parts.".into()
+        "generated: size n in 1..6; general matrices P (Q1 D Q2) with Givens-product orthogonal factors, singular values in [0.5,2] (condition number <= 4 known by construction; 20%: up to 1e4) and a random row permutation (pivoting paths, both parities); symmetric matrices Q L Q^T with eigenvalue gaps >= 0.25; every entry carries arbitrary derivative parts (symmetric for the eigen routines); right-hand sides; scalar types Dual64, Dual2_64, DualSVec64<2>, HyperDual64, Dual3_64 for the crate's own LU / Jacobi / norm and Dual64, Dual2_64, DualSVec64<2>, Dual2SVec64<2> for nalgebra's generic LU, inverse, determinant, symmetric_eigen; singular stratum: exact dyadic matrices with a zero column / repeated row / dependent row and non-zero derivative parts. Oracle = validity predicates evaluated in the reference algebra on the library's output: A x = b, A A^-1 = I, det = Leibniz expansion (all parts, which contains Jacobi's formula), A V = V diag(lambda), V^T V = I, lambda ascending (crate Jacobi), which contains Hellmann-Feynman; tolerance 64 n u (1+kappa)^(1+order) * (summed magnitude of the identity's terms) for the direct methods, crate Jacobi 64 n u amp^(1+2 order) with amp = 1 + norm/gap; nalgebra symmetric_eigen: real part 1e7 u amp (its own accuracy), derivative parts 64 n u amp^(1+2 order) - cases beyond that are occurrences of the KNOWN finding C12/na-symmetric-eigen/derivative-parts (excluded and counted); the singular stratum must be reported (Err / None / false) and never yield non-finite output. Non-trivial: n >= 3, a row swap happened, non-zero derivative parts.".into()
     }
     fn assumptions() -> Vec<String> {
         vec![
